@@ -5,6 +5,7 @@ import (
 	"errors"
 	"fmt"
 	"sort"
+	"strings"
 	"time"
 
 	dht "github.com/libp2p/go-libp2p-kad-dht"
@@ -46,6 +47,15 @@ type lookupCfg struct {
 	N, K, Alpha, Beta int
 	Key               string
 	Deny              map[peer.ID]bool
+	// AddrFilter: the query filter is address-sensitive: a peer passes iff the
+	// addresses it is named with (plus what the peerstore holds) contain a
+	// "good" (8.x / 9.x) address; repliers then present some peers with a
+	// private address only, or with none.
+	AddrFilter bool
+	// LazyEvents: the lookup-event channel has room for one event and events
+	// are consumed by scheduler decisions, so the lookup loop can be held up
+	// publishing while further replies pile up behind it.
+	LazyEvents bool
 	CancelAt          int // step at which the context is cancelled (0 = never)
 	FaultLevel        int // 0 none, 1 light, 2 heavy
 	Lies              bool
@@ -57,11 +67,25 @@ type stampedEvent struct {
 	Ev   *dht.LookupEvent
 }
 
+// hasGoodAddr: the address-sensitive harness filter (palette: peers live on
+// 8.x, ghosts on 9.x; "bad" presentations use 192.168.x).
+func hasGoodAddr(addrs []ma.Multiaddr) bool {
+	for _, a := range addrs {
+		if s := a.String(); strings.HasPrefix(s, "/ip4/8.") || strings.HasPrefix(s, "/ip4/9.") {
+			return true
+		}
+	}
+	return false
+}
+
+var badAddr = ma.StringCast("/ip4/192.168.7.7/tcp/4001")
+
 type delivery struct {
 	Step   int
 	Peer   peer.ID
 	Kind   string // dial-ok dial-fail reply rpc-err cancel
 	Peers  []peer.ID
+	Good   map[peer.ID]bool // reply: peers presented with a good address
 	RPC    *simnet.RPC
 	Before bool
 }
@@ -76,6 +100,8 @@ type lookupObs struct {
 	deliveries []delivery
 	op         *Op
 	cancelStep int // step at which cancel was applied (0 = not cancelled)
+	drainAll   bool
+	seeded     map[peer.ID]bool
 	stampsPre  []time.Time
 	stampsPost []time.Time
 	returnedAt time.Time
@@ -106,7 +132,7 @@ func buildLookupWorld(s *sim.Sim, c *lookupCfg) (*H1, error) {
 	keyKad := simnet.KadOfKey(c.Key)
 
 	var opts []dht.Option
-	if len(c.Deny) > 0 || (c.Universe == "random" && s.Chance("use-filter", 1, 3)) {
+	if len(c.Deny) > 0 || (c.Universe == "random" && !c.AddrFilter && s.Chance("use-filter", 1, 3)) {
 		c.Deny = map[peer.ID]bool{}
 		for _, p := range u.Peers {
 			if rng.Intn(5) == 0 {
@@ -115,6 +141,8 @@ func buildLookupWorld(s *sim.Sim, c *lookupCfg) (*H1, error) {
 		}
 		deny := c.Deny
 		opts = append(opts, dht.QueryFilter(func(_ any, ai peer.AddrInfo) bool { return !deny[ai.ID] }))
+	} else if c.AddrFilter {
+		opts = append(opts, dht.QueryFilter(func(_ any, ai peer.AddrInfo) bool { return hasGoodAddr(ai.Addrs) }))
 	}
 	h, err := newH1(s, u, c.K, c.Alpha, c.Beta, opts...)
 	if err != nil {
@@ -176,7 +204,7 @@ func buildLookupWorld(s *sim.Sim, c *lookupCfg) (*H1, error) {
 			sort.Slice(knows, func(i, j int) bool { return knows[i].Idx < knows[j].Idx })
 			h.Beh[x.ID] = &Behaviour{Knows: knows}
 		}
-	default:
+	default: // "random", "random-nofilter"
 		density := []int{1, 3, 8}[s.Draw("density", 3)] // knows each other peer with p = density/8
 		for _, p := range real {
 			b := &Behaviour{}
@@ -310,13 +338,35 @@ func (o *lookupObs) lookupActions() []sim.Action {
 					return
 				}
 				closer := h.closerFor(x, simnet.KadOfKey(string(r.Req.GetKey())))
+				good := map[peer.ID]bool{}
+				for _, c := range closer {
+					if o.cfg.AddrFilter {
+						switch s.Draw("present", 4) {
+						case 1: // private address only
+							c.Addrs = [][]byte{badAddr.Bytes()}
+							s.Count("fault_bad_addr_presentation")
+						case 2: // no address
+							c.Addrs = nil
+							s.Count("fault_bad_addr_presentation")
+						}
+					}
+					var as []ma.Multiaddr
+					for _, b := range c.Addrs {
+						if a, err := ma.NewMultiaddrBytes(b); err == nil {
+							as = append(as, a)
+						}
+					}
+					if hasGoodAddr(as) {
+						good[peer.ID(c.Id)] = true
+					}
+				}
 				resp := &pb.Message{Type: r.Req.GetType(), Key: r.Req.GetKey(), CloserPeers: closer}
 				var ids []peer.ID
 				for _, c := range closer {
 					ids = append(ids, peer.ID(c.Id))
 				}
 				s.Release(p, simnet.Reply{Msg: resp})
-				o.deliveries = append(o.deliveries, delivery{Step: s.Steps, Peer: r.To, Kind: "reply", Peers: ids, RPC: r})
+				o.deliveries = append(o.deliveries, delivery{Step: s.Steps, Peer: r.To, Kind: "reply", Peers: ids, Good: good, RPC: r})
 			}})
 		}
 	}
@@ -346,27 +396,44 @@ func runLookup(s *sim.Sim, c lookupCfg) *lookupObs {
 		seeds = []*simnet.Peer{real[rng.Intn(len(real))]}
 	}
 	o.table = h.Seed(seeds)
+	o.seeded = map[peer.ID]bool{} // their true addresses went into the peerstore
+	for _, p := range seeds {
+		o.seeded[p.ID] = true
+	}
 	o.stampsPre = h.DHT.RoutingTable().GetTrackedCplsForRefresh()
 
-	s.Summary["cfg"] = fmt.Sprintf("universe=%s N=%d K=%d alpha=%d beta=%d table=%d faults=%d lies=%v deny=%d cancelAt=%d",
-		c.Universe, c.N, c.K, c.Alpha, c.Beta, len(o.table), c.FaultLevel, c.Lies, len(c.Deny), c.CancelAt)
+	s.Summary["cfg"] = fmt.Sprintf("universe=%s N=%d K=%d alpha=%d beta=%d table=%d faults=%d lies=%v deny=%d addrFilter=%v lazyEvents=%v cancelAt=%d",
+		c.Universe, c.N, c.K, c.Alpha, c.Beta, len(o.table), c.FaultLevel, c.Lies, len(c.Deny), c.AddrFilter, c.LazyEvents, c.CancelAt)
 
 	evCtx, evCancel := context.WithCancel(context.Background())
 	defer evCancel()
+	oldBuf := dht.LookupEventBufferSize
+	if c.LazyEvents {
+		dht.LookupEventBufferSize = 1
+	} else {
+		dht.LookupEventBufferSize = 4096
+	}
 	regCtx, evCh := dht.RegisterForLookupEvents(evCtx)
+	dht.LookupEventBufferSize = oldBuf
 	opCtx, cancel := context.WithCancel(regCtx)
 	defer cancel()
 
-	drain := func() {
-		for {
-			select {
-			case ev := <-evCh:
-				if ev != nil {
-					o.events = append(o.events, stampedEvent{s.Steps, ev})
-				}
-			default:
-				return
+	takeOne := func() bool {
+		select {
+		case ev := <-evCh:
+			if ev != nil {
+				o.events = append(o.events, stampedEvent{s.Steps, ev})
 			}
+			return true
+		default:
+			return false
+		}
+	}
+	drain := func() {
+		if c.LazyEvents && !o.drainAll {
+			return
+		}
+		for takeOne() {
 		}
 	}
 
@@ -396,6 +463,14 @@ func runLookup(s *sim.Sim, c lookupCfg) *lookupObs {
 			s.Count("time_advance")
 		}
 		acts := o.lookupActions()
+		if c.LazyEvents && len(evCh) > 0 {
+			acts = append(acts, sim.Action{ID: "consume-event", Do: func() {
+				if len(acts) > 1 {
+					s.Count("probe_event_consumed_with_calls_parked")
+				}
+				takeOne()
+			}})
+		}
 		if len(acts) == 0 {
 			idle++
 			if idle > 30 {
@@ -407,6 +482,7 @@ func runLookup(s *sim.Sim, c lookupCfg) *lookupObs {
 		idle = 0
 		s.Choose("next", acts)
 	}
+	o.drainAll = true
 	drain()
 	o.stampsPost = h.DHT.RoutingTable().GetTrackedCplsForRefresh()
 	if s.Failed() {
@@ -452,6 +528,9 @@ type lookupView struct {
 	heardBy    map[peer.ID][]peer.ID // per responder, the Heard list published
 	learned    map[peer.ID]bool
 	respEvents int
+	// peers reported as queried/unreachable in an event whose cause is another
+	// peer, or together with others in one event
+	causeMismatch []peer.ID
 }
 
 func (o *lookupObs) view() (*lookupView, string) {
@@ -499,9 +578,18 @@ func (o *lookupObs) view() (*lookupView, string) {
 			}
 			for _, q := range r.Queried {
 				v.queried[q.Peer] = se.Step
+				if q.Peer != cause {
+					v.causeMismatch = append(v.causeMismatch, q.Peer)
+				}
 			}
 			for _, q := range r.Unreachable {
 				v.unreach[q.Peer] = se.Step
+				if q.Peer != cause {
+					v.causeMismatch = append(v.causeMismatch, q.Peer)
+				}
+			}
+			if len(r.Queried)+len(r.Unreachable) > 1 {
+				v.causeMismatch = append(v.causeMismatch, cause)
 			}
 			var hl []peer.ID
 			for _, p := range r.Heard {
